@@ -24,7 +24,7 @@ def calibrate():
 
 
 def strategy(tier):
-    return Lm.case_st(tier, pdata=True)
+    return Lm.case_st(tier, pdata=True, ivs=True)
 
 
 def budget(tier):
